@@ -131,6 +131,11 @@ var $callDeferred = (deferred, jsErr, fromPanic) => {
     } catch (e) {
         // Deferred function threw a JavaScript exception or tries to unwind stack
         // to the point where a panic was handled.
+        if (e !== null) {
+            /* A JavaScript exception (possibly a panic nothing recovered) left the deferred call: whoever
+               handles it next replaces the panic handled here. */
+            abortedByReplacement = true;
+        }
         if (e === null && !$curGoroutine.asleep) {
             abortedByReplacement = true;
             if (localPanicValue !== undefined) {
